@@ -485,6 +485,50 @@ U_ENV = KaniUnit(
     prepare=prep_assign, timeout=1800, complete=False, bound="3 names, chain depth 2, arbitrary initial parent bindings",
     assumptions=[VECMAP_ASSUMPTION])
 
+SITE_STUBS = [STUB_ASSUMPTIONS[0], VECMAP_ASSUMPTION,
+              "Kani stubs (probes) for the evaluator call made by the site (evaluate_ast / evaluate_do_block_expr): inspect the "
+              "scope they are handed, bind what a statement would bind, return a fixed value or a scripted failure; values are "
+              "numbers only (a lambda value, which also sets LambdaDef.name, is not covered)"]
+
+
+def prep_scope_sites(sc):
+    prep_assign(sc)
+    prep_doblock(sc)
+
+
+U_ASSIGN_GUARD = KaniUnit(
+    "U-ASSIGN-GUARD", "Expr::Assignment arm of evaluate_ast (sliced verbatim): every keyword the evaluator can see, built-in "
+    "names, `inputs`, `constants` and any name visible in the current or an enclosing scope are refused WITHOUT evaluating "
+    "the right-hand side and without changing any binding; a fresh name evaluates the right-hand side once and is bound to "
+    "its value; a failing right-hand side binds nothing",
+    modules=[("expressions.rs", "verif_assign_guard.rs")],
+    harnesses=["u_assign_guard_a", "u_assign_guard_b", "u_assign_guard_c", "u_assign_guard_rebind", "u_assign_guard_failing_rhs"],
+    functions=[("expressions.rs", "evaluate_ast", None), ("environment.rs", "contains_key", "Environment"),
+               ("environment.rs", "insert", "Environment")],
+    prepare=prep_assign, timeout=900, complete=False,
+    bound="13 reserved names (constants, inputs, if, then, else, true, false, null, and, or, sqrt, map) + fresh / visible names; "
+          "scope chain depth <= 2",
+    assumptions=SITE_STUBS, dropped=["T3: the match dispatch around the Assignment arm"])
+
+U_DOASSIGN2 = KaniUnit(
+    "U-DOASSIGN", "evaluate_do_block_expr: the nine keywords are refused without evaluating the right-hand side; any other name "
+    "(fresh or shadowing an outer one) is bound in the block scope to the evaluated value; the enclosing scope is unchanged "
+    "and never sees the block's names",
+    modules=[("expressions.rs", "verif_scope_sites.rs")],
+    harnesses=["u_doassign_names", "u_doassign_keywords_a", "u_doassign_keywords_b"],
+    functions=[("expressions.rs", "evaluate_do_block_expr", None)],
+    prepare=prep_scope_sites, timeout=900, complete=False, bound="name pool of 11 identifiers; scope chain depth 2",
+    assumptions=SITE_STUBS)
+
+U_DOBLOCK2 = KaniUnit(
+    "U-DOBLOCK", "Expr::DoBlock arm of evaluate_ast (sliced verbatim): statements then the return expression are evaluated once "
+    "each, in order, at the same call depth, in ONE fresh scope that sees the enclosing names; the first failure fails the "
+    "block; what the block binds never reaches the enclosing scope",
+    modules=[("expressions.rs", "verif_scope_sites.rs")], harnesses=["u_doblock_ok", "u_doblock_failing"],
+    functions=[("expressions.rs", "evaluate_ast", None), ("environment.rs", "extend", "Environment")],
+    prepare=prep_scope_sites, timeout=900, complete=False, bound="blocks of 0..=2 statements, every failure position",
+    assumptions=SITE_STUBS, dropped=["T3: the match dispatch around the DoBlock arm"])
+
 U_ENV_AUDIT = AuditUnit(
     "U-ENV-AUDIT", "every Environment::insert call site in blots-core is in evaluate_ast's Assignment arm or "
     "evaluate_do_block_expr (both under contract)", audit_env_insert_sites)
@@ -912,16 +956,15 @@ prop("C06", [U_JSON_SCALAR], "other",
       "not guaranteed correctly rounded - observation by reading, outside this technique)"],
      FMT_BT)
 
-prop("C03", [U_ENV, U_ENV_AUDIT], "other",
-     "Only the frame part of C03 is decided: the Environment scope chain behaves as 'local overrides parent' and an insert "
-     "into a child scope never changes the parent's view (Kani, bounded name pool), and the only Environment::insert call "
-     "sites are the Assignment arm and the do-block assignment (audit). The contracts written for those two sites "
-     "(U-ASSIGN, U-DOASSIGN in kani/verif_expr_assign.rs: refusal of keywords / built-ins / inputs / constants / visible "
-     "names without evaluating the right-hand side, bind-after-success, no leak) did NOT discharge within 15 minutes per "
-     "4 names and are not registered.",
-     ["the Assignment arm and evaluate_do_block_expr themselves (contracts written, intractable: >15 min)",
-      "induction over statement sequences", "REPL/CLI drivers", "that not/do/return/output cannot be identifiers (grammar)"],
-     [VECMAP_ASSUMPTION])
+prop("C03", [U_ASSIGN_GUARD, U_DOASSIGN2, U_DOBLOCK2, U_ENV, U_ENV_AUDIT], "other",
+     "Per-site contracts for every place a name gets bound in blots-core: the top-level Assignment arm (refusals without "
+     "evaluating the right-hand side, bind-after-success, failing right-hand side binds nothing), do-block assignment and the "
+     "DoBlock arm (one fresh scope, nothing leaks, outer bindings unchanged), the Environment scope chain, plus a frame audit "
+     "that there is no other insert site. Bounded name pools / block lengths (labelled). The induction over statement "
+     "sequences is a paper step; call-time parameter scopes are part of C04.",
+     ["induction over statement sequences (each step is proved, the composition is not)", "REPL/CLI drivers",
+      "that not/do/return/output cannot be identifiers (grammar)", "lambda values bound by an assignment (LambdaDef.name update)"],
+     SITE_STUBS)
 
 prop("C02", [U_HEAP, U_FRAME_AUDIT, U_GLOBAL_STATE], "other",
      "Frame conditions only: the heap is append-only (Verus, all heaps, unbounded) and the only two mutation sites set a "
